@@ -87,3 +87,17 @@ Theorem C03_after_panic : forall p h m b blen nxt,
   is_fault (fst (tagiter_step p h m b blen nxt)) = false /\ snd (tagiter_step p h m b blen nxt) mod 8 = 0.
 Proof. exact tagiter_step_safe. Qed.
 Print Assumptions C03_after_panic.
+
+(* the provided nth(k) on an iterator in ANY state (fresh, advanced, left behind by a caught panic): it is k+1 calls of
+   next(), so it is a value or a controlled panic, never a fault, and leaves an 8-aligned offset; on an iterator whose steps
+   all succeed it is the pure nth of C03_nth *)
+Theorem C03_nth_after_panic : forall p h m b blen k nxt,
+  iter_ok h m b blen -> nxt mod 8 = 0 ->
+  is_fault (fst (tagiter_nth_step p h m b blen nxt k)) = false /\ snd (tagiter_nth_step p h m b blen nxt k) mod 8 = 0.
+Proof. intros p h m b blen k nxt H. exact (tagiter_nth_step_safe p h m b blen H k nxt). Qed.
+Print Assumptions C03_nth_after_panic.
+
+Theorem C03_nth_step_is_nth : forall p h m b blen k nxt o n',
+  tagiter_nth p h m b blen nxt k = Val (o, n') -> tagiter_nth_step p h m b blen nxt k = (Val o, n').
+Proof. intros p h m b blen. exact (tagiter_nth_step_val p h m b blen). Qed.
+Print Assumptions C03_nth_step_is_nth.
